@@ -24,6 +24,10 @@ struct Plugin {
     take_vec: unsafe extern "C" fn(CVec<u64>) -> u64,
     grow_vec: unsafe extern "C" fn(CVec<u64>, u64) -> CVec<u64>,
     arc: unsafe extern "C" fn() -> CArc<c_void>,
+    group_tagged: unsafe extern "C" fn(u64, CArc<c_void>, u64) -> StoreGroupArcBox<'static>,
+    store_tagged: unsafe extern "C" fn(u64, CArc<c_void>, u64) -> StoreArcBox<'static>,
+    set_ctx_probe: unsafe extern "C" fn(extern "C" fn(u64) -> bool),
+    late_destructors: unsafe extern "C" fn() -> u64,
     arc_clone_drop: unsafe extern "C" fn(CArc<c_void>) -> CArc<c_void>,
     marks: unsafe extern "C" fn() -> [u64; 2],
     stats: unsafe extern "C" fn(u64, u64) -> ModuleStats,
@@ -48,6 +52,10 @@ fn load(path: &str) -> Plugin {
             take_vec: sym!(b"plugin_take_vec"),
             grow_vec: sym!(b"plugin_grow_vec"),
             arc: sym!(b"plugin_arc"),
+            group_tagged: sym!(b"plugin_group_tagged"),
+            store_tagged: sym!(b"plugin_store_tagged"),
+            set_ctx_probe: sym!(b"plugin_set_ctx_probe"),
+            late_destructors: sym!(b"plugin_late_destructors"),
             arc_clone_drop: sym!(b"plugin_arc_clone_drop"),
             marks: sym!(b"plugin_marks"),
             stats: sym!(b"plugin_stats"),
@@ -70,6 +78,10 @@ impl Drop for LibLike {
         let frames: Vec<&str> = bt.lines().filter(|l| l.contains("cglue_wrapped_")).take(3).collect();
         LIB_TRACES.lock().unwrap().push((self.0, inside, frames.join(" | ")));
     }
+}
+/// asked by the other module's instance destructors: is context `tag` still alive?
+extern "C" fn ctx_alive(tag: u64) -> bool {
+    !LIB_TRACES.lock().unwrap().iter().any(|x| x.0 == tag)
 }
 #[inline(never)]
 fn cglue_wrapped_canary(l: Arc<LibLike>) {
@@ -287,6 +299,7 @@ fn main() {
     cglue_wrapped_canary(Arc::new(LibLike(1)));
     let canary_ok = lib_verdict(1).map(|v| v.0).unwrap_or(false);
     rep.add("backtrace_canary_ok", canary_ok as u64);
+    unsafe { (plugin.set_ctx_probe)(ctx_alive) };
     for h in 0..nhist {
         let hs = seed.wrapping_mul(1_000_003).wrapping_add(h);
         let pm = unsafe { (plugin.marks)() };
@@ -334,6 +347,27 @@ fn main() {
                 Some((false, _)) => rep.add("consuming_calls_with_sole_context", 1),
                 None => rep.violation("C05:context-not-released", &format!("history {}: context payload never dropped", hs), &format!("{}", hs)),
             }
+        }
+        // objects that are the last holder of their context are destroyed here: the instance's destructor (the other
+        // module's code) must run while the context is still alive, for single-trait objects, groups and cast forms
+        {
+            let late0 = unsafe { (plugin.late_destructors)() };
+            for k in 0..4u64 {
+                let id = 2_000_000 + h * 4 + k;
+                let lib = Arc::new(LibLike(id));
+                let ctx = CArc::<LibLike>::from(lib).into_opaque();
+                match k {
+                    0 => drop(unsafe { (plugin.store_tagged)(hs, ctx, id) }),
+                    1 => drop(unsafe { (plugin.group_tagged)(hs, ctx, id) }),
+                    2 => { let g = unsafe { (plugin.group_tagged)(hs, ctx, id) }; let c = cast!(g impl Extra).expect("Extra enabled"); drop(c); }
+                    _ => { let g = unsafe { (plugin.group_tagged)(hs, ctx, id) }; let c = into!(g impl Extra + Clone).expect("both enabled"); drop(c); }
+                }
+            }
+            let late = unsafe { (plugin.late_destructors)() } - late0;
+            if late != 0 {
+                rep.violation("C05:instance-destroyed-after-its-context", &format!("history {}: {} plugin-made instance(s) were destroyed after the context they depend on had been released", hs, late), &format!("{}", hs));
+            }
+            rep.add("sole_holder_drops", 4);
         }
         rep.add("histories", 1);
         rep.add("plugin_tracking_active", ps.tracking_active);
